@@ -31,7 +31,7 @@ pub fn profile(tier_thorough: bool) -> Profile {
     p.ws = 1..6;
     p.w_compact = 3;
     p.w_reopen = 2;
-    p.w_index = 1;
+    p.w_index = 2;
     p.nested_values = false;
     p
 }
@@ -106,6 +106,64 @@ pub fn eval_image(img: &Image, states: &[Model], started: usize, ctxmsg: &str) -
         }
     }
     Ok((EvalOutcome { matched: all.first().copied(), all }, dir, Some(db)))
+}
+
+/// With an index present, equality look-ups through Cypher must agree with the recovered
+/// state as well (index pages are updated in place inside the commit).
+fn index_queries_agree(db: &nervusdb::Db, m: &Model, ops: &[Op], obs: &mut Obs) -> CaseResult {
+    use crate::pv::PV;
+    let mut pairs: Vec<(String, String)> = Vec::new();
+    for op in ops {
+        if let Op::CreateIndex { l, k } = op {
+            let p = (hist::LABELS[*l as usize % hist::LABELS.len()].to_string(), hist::KEYS[*k as usize % hist::KEYS.len()].to_string());
+            if !pairs.contains(&p) {
+                pairs.push(p);
+            }
+        }
+    }
+    fn num(p: &PV) -> Option<f64> {
+        match p {
+            PV::Int(i) => Some(*i as f64),
+            PV::Float(b) => Some(f64::from_bits(*b)),
+            _ => None,
+        }
+    }
+    for (label, key) in pairs {
+        let mut values: Vec<PV> = m.nodes.values().filter_map(|n| n.props.get(&key).cloned()).filter(|v| matches!(v, PV::Int(_) | PV::Str(_) | PV::Bool(_))).collect();
+        values.sort();
+        values.dedup();
+        for v in values.into_iter().take(6) {
+            if let PV::Int(i) = v {
+                if i.unsigned_abs() > (1u64 << 52) {
+                    continue; // keep clear of the Int/Float boundary cases (C23's subject)
+                }
+            }
+            let mut want: Vec<i64> = m
+                .nodes
+                .iter()
+                .filter(|(_, n)| n.labels.contains(&label))
+                .filter(|(_, n)| match n.props.get(&key) {
+                    Some(x) => x == &v || (num(x).is_some() && num(x) == num(&v)),
+                    None => false,
+                })
+                .map(|(id, _)| *id as i64)
+                .collect();
+            want.sort();
+            let q = format!("MATCH (n:{label} {{{key}: $v}}) RETURN id(n) AS id");
+            let params = crate::cy::params_from(&[("v".to_string(), v.clone())], None);
+            let (_, rows) = crate::cy::read(db, &q, &params).map_err(|e| Failure::new("index-query-fails-after-recovery", format!("{q} with v={v:?}: {}", e.text())))?;
+            let mut got: Vec<i64> = rows.iter().filter_map(|r| match r.first() { Some(crate::cy::CV::Int(i)) => Some(*i), _ => None }).collect();
+            got.sort();
+            obs.count("index_queries_after_recovery", 1);
+            if !want.is_empty() {
+                obs.count("index_queries_with_hits", 1);
+            }
+            if got != want {
+                fail!("index-query-wrong-after-recovery", "{q} with v={v:?} returns {got:?}, the recovered state says {want:?}");
+            }
+        }
+    }
+    Ok(())
 }
 
 fn judge(which: Which, out: &EvalOutcome, acked: usize, started: usize, states: &[Model], img_desc: &str, phase: &str, db: &nervusdb::Db) -> CaseResult {
@@ -219,8 +277,14 @@ pub fn test(c: &Case, obs: &mut Obs, which: Which, cap: usize, no_reorder_pagefi
                 };
                 let db = db.unwrap();
                 judge(which, &out, acked, started, &t.states, &ctxmsg, phase, &db)?;
+                if which == Which::Prefix {
+                    if let Some(j) = out.matched {
+                        index_queries_agree(&db, &t.states[j], &c.ops, obs).map_err(|f| Failure::new(format!("{}:{phase}", f.signature), format!("{ctxmsg}: {}", f.message)))?;
+                    }
+                }
                 // second round at a sample of points: keep working on the recovered database
-                if !c.after.is_empty() && fp(&(case_fp, k, "round2")) % 4 == 0 {
+                let r2_every = c.ops.iter().filter(|o| matches!(o, Op::CreateIndex { .. })).count() > 0 && c.ops.len() < 10;
+                if !c.after.is_empty() && (fp(&(case_fp, k, "round2")) % 4 == 0 || (r2_every && fp(&(case_fp, k, "round2")) % 2 == 0)) {
                     drop(db);
                     // states with equal graphs can differ in their id counters (a node created
                     // and deleted in one transaction): the continuation must work from one of them
@@ -231,7 +295,7 @@ pub fn test(c: &Case, obs: &mut Obs, which: Which, cap: usize, no_reorder_pagefi
                             let _ = std::fs::remove_dir_all(_d.path());
                             snapshot.write_to(_d.path()).map_err(|e| Failure::new("harness-io", e.to_string()))?;
                         }
-                        match round_two(&_d, &t.states[*j], &c.after, obs) {
+                        match round_two(&_d, &t.states[*j], &c.after, &c.ops, obs) {
                             Ok(()) => {
                                 last = None;
                                 break;
@@ -261,7 +325,7 @@ pub fn test(c: &Case, obs: &mut Obs, which: Which, cap: usize, no_reorder_pagefi
 }
 
 /// After recovery the database must keep accepting and durably storing transactions.
-fn round_two(dir: &crate::engine::TempDir, state: &Model, after: &[Op], obs: &mut Obs) -> CaseResult {
+fn round_two(dir: &crate::engine::TempDir, state: &Model, after: &[Op], index_ops: &[Op], obs: &mut Obs) -> CaseResult {
     let mut r = Runner::new(dir.join("db"), Excl::default())?;
     r.model = state.clone();
     r.states = vec![state.clone()];
@@ -269,9 +333,11 @@ fn round_two(dir: &crate::engine::TempDir, state: &Model, after: &[Op], obs: &mu
         r.apply(op, false, false, obs).map_err(|f| r.fail_with_log(f))?;
     }
     r.check().map_err(|f| r.fail_with_log(f))?;
+    index_queries_agree(r.db(), &r.model, index_ops, obs).map_err(|f| r.fail_with_log(f))?;
     r.apply(&Op::DropReopen, false, false, obs).map_err(|f| r.fail_with_log(f))?;
     obs.sub_eval(None);
-    r.check().map_err(|f| r.fail_with_log(f))
+    r.check().map_err(|f| r.fail_with_log(f))?;
+    index_queries_agree(r.db(), &r.model, index_ops, obs).map_err(|f| r.fail_with_log(f))
 }
 
 pub fn run_which(ctx: &mut RunCtx, which: Which) {
@@ -292,6 +358,45 @@ pub fn run_which(ctx: &mut RunCtx, which: Which) {
         Which::Acked => "one traced run per generated history (transactions, compaction, checkpoint, close+reopen, index creation), then every selected I/O step is a crash point under process death (plus torn prefixes of the write) and power loss; the reopened image must equal a commit-ordered model state containing every acknowledged commit; a quarter of the points continue with new transactions and another reopen; non-trivial evaluation = crash strictly inside an operation (or power loss) after >=1 acknowledged commit",
         Which::Prefix => "same trace and crash images as C01; the reopened image must open and equal one of the commit-ordered model states 0..started (no partial transaction, no gap); non-trivial evaluation = crash strictly inside an operation, a torn write, or power loss",
     };
+    if which == Which::Prefix {
+        // histories built around one index: indexed values are inserted, updated, removed and
+        // their nodes deleted, so that index pages change inside the crashing operations
+        let icases = ctx.tier.pick(64, 1200);
+        ctx.explore(
+            "index-crash-points",
+            "histories around an index on (A, p): index creation at a generated position, transactions that create :A nodes with small p values, update / remove p, delete nodes, compaction, reopen; same crash images and prefix oracle as the main section plus Cypher equality look-ups `MATCH (n:A {p: $v})` compared with the recovered state for every stored value; non-trivial as in the main section",
+            icases,
+            || {
+                use crate::hist::W;
+                use crate::pv::PV;
+                let val = prop_oneof![(0i64..4).prop_map(PV::Int), prop::sample::select(vec!["x", "y"]).prop_map(|s| PV::Str(s.to_string())), any::<bool>().prop_map(PV::Bool)];
+                let w = prop_oneof![
+                    4 => val.clone().prop_map(|v| vec![W::CreateNode { labels: vec![0] }, W::SetNodeProp { n: u16::MAX, k: 0, v }]),
+                    3 => (any::<u16>(), val).prop_map(|(n, v)| vec![W::SetNodeProp { n, k: 0, v }]),
+                    1 => any::<u16>().prop_map(|n| vec![W::RemoveNodeProp { n, k: 0 }]),
+                    1 => any::<u16>().prop_map(|n| vec![W::DeleteNode { n }]),
+                    1 => (any::<u16>(), 0u8..2).prop_map(|(n, l)| vec![W::RemoveLabel { n, l }]),
+                    1 => (any::<u16>(), 0u8..2).prop_map(|(n, l)| vec![W::AddLabel { n, l }]),
+                ];
+                let op = prop_oneof![
+                    8 => prop::collection::vec(w, 1..4).prop_map(|ws| Op::Tx { ws: ws.concat(), commit: true }),
+                    2 => Just(Op::CreateIndex { l: 0, k: 0 }),
+                    2 => Just(Op::Compact),
+                    1 => prop_oneof![Just(Op::CloseReopen), Just(Op::DropReopen)],
+                ];
+                let after_w = prop_oneof![(0i64..4).prop_map(PV::Int), any::<bool>().prop_map(PV::Bool)]
+                    .prop_map(|v| Op::Tx { ws: vec![W::CreateNode { labels: vec![0] }, W::SetNodeProp { n: u16::MAX, k: 0, v }], commit: true });
+                (prop::collection::vec(op, 2..9), prop::collection::vec(after_w, 1..3)).prop_map(|(mut ops, after)| {
+                    if !ops.iter().any(|o| matches!(o, Op::CreateIndex { .. })) {
+                        let at = ops.len() / 2;
+                        ops.insert(at, Op::CreateIndex { l: 0, k: 0 });
+                    }
+                    Case { ops, after, force: false }
+                })
+            },
+            |c: &Case, obs: &mut Obs| test(c, obs, which, cap, no_reorder),
+        );
+    }
     ctx.explore(
         "crash-points",
         rule,
